@@ -42,6 +42,18 @@ type spec struct {
 	falseOnRefusal bool
 	// gateFault: with sufficient witnesses the call reaches this fault (update to the same version)
 	gateFault string
+	// extra: further insufficient signer sets (holders of another privilege on the same object)
+	extra func(p *prep) []signerSet
+	// alt: documented alternative sufficient signer sets; each one is run on its own freshly prepared world
+	alt func(p *prep) []signerSet
+}
+
+func adminAlone(p *prep) []signerSet {
+	return []signerSet{{"appointed-admin", []world.SignerSpec{single(p.admk)}, true}}
+}
+
+func adminInsufficient(p *prep) []signerSet {
+	return []signerSet{{"appointed-admin", []world.SignerSpec{single(p.admk)}, false}}
 }
 
 func sigb(x byte) []byte { return bytes.Repeat([]byte{x}, 64) }
@@ -138,8 +150,8 @@ var table = map[string]spec{
 	}},
 	"netmap.updateStateIR/2": {kind: kAlphabet, args: func(p *prep) []any { return []any{int64(3), p.node0.PublicKey().Bytes()} }},
 	// ---- nns
-	"nns.addRecord/3":     {kind: kKey, key: func(p *prep) *keys.PrivateKey { return p.u0k }, args: func(p *prep) []any { return []any{"own.com", int64(16), "second"} }},
-	"nns.deleteRecords/2": {kind: kKey, key: func(p *prep) *keys.PrivateKey { return p.u0k }, args: func(p *prep) []any { return []any{"own.com", int64(16)} }},
+	"nns.addRecord/3":     {kind: kKey, alt: adminAlone, key: func(p *prep) *keys.PrivateKey { return p.u0k }, args: func(p *prep) []any { return []any{"own.com", int64(16), "second"} }},
+	"nns.deleteRecords/2": {kind: kKey, alt: adminAlone, key: func(p *prep) *keys.PrivateKey { return p.u0k }, args: func(p *prep) []any { return []any{"own.com", int64(16)} }},
 	"nns.register/7": {kind: kKey, key: func(p *prep) *keys.PrivateKey { return p.u1k }, args: func(p *prep) []any {
 		return []any{"fresh.com", p.u1.ScriptHash(), "a@b.c", int64(1), int64(1), int64(1000), int64(1)}
 	}},
@@ -150,8 +162,8 @@ var table = map[string]spec{
 		return []any{"own.com", p.u1.ScriptHash()}
 	}},
 	"nns.setPrice/1":  {kind: kMajority, args: func(p *prep) []any { return []any{int64(12345)} }},
-	"nns.setRecord/4": {kind: kKey, key: func(p *prep) *keys.PrivateKey { return p.u0k }, args: func(p *prep) []any { return []any{"own.com", int64(16), int64(0), "changed"} }},
-	"nns.transfer/3": {kind: kKey, falseOnRefusal: true, key: func(p *prep) *keys.PrivateKey { return p.u0k }, args: func(p *prep) []any {
+	"nns.setRecord/4": {kind: kKey, alt: adminAlone, key: func(p *prep) *keys.PrivateKey { return p.u0k }, args: func(p *prep) []any { return []any{"own.com", int64(16), int64(0), "changed"} }},
+	"nns.transfer/3": {kind: kKey, falseOnRefusal: true, extra: adminInsufficient, key: func(p *prep) *keys.PrivateKey { return p.u0k }, args: func(p *prep) []any {
 		return []any{p.u1.ScriptHash(), "own.com", nil}
 	}},
 	"nns.update/3": updateSpec("nns", kMajority),
@@ -174,6 +186,12 @@ type signerSet struct {
 	signers    []world.SignerSpec
 	sufficient bool
 }
+
+// signer sets preceded by a role re-designation in the previous block; they run last, in the order given
+const (
+	lblDismissed  = "inner-ring-majority-dismissed-in-the-previous-block"
+	lblDesignated = "inner-ring-majority-designated-in-the-previous-block"
+)
 
 func g(s neotest.Signer) world.SignerSpec { return world.G(s) }
 
@@ -217,6 +235,8 @@ func (p *prep) signerSets(s spec) []signerSet {
 		owner, adm := s.key(p), s.key2(p)
 		return []signerSet{nobody, stranger, {"owner-without-new-admin", []world.SignerSpec{single(owner)}, false}, {"new-admin-without-owner", []world.SignerSpec{single(adm)}, false},
 			{"new-admin+majority", []world.SignerSpec{single(adm), g(w.Majority)}, false},
+			{"current-admin-without-owner", []world.SignerSpec{single(p.admk)}, false},
+			{"current-admin+new-admin", []world.SignerSpec{single(p.admk), single(adm)}, false},
 			{"owner+new-admin", []world.SignerSpec{single(owner), single(adm)}, true}}
 	case kNode:
 		sets := []signerSet{nobody, stranger, alpha, maj}
@@ -225,8 +245,17 @@ func (p *prep) signerSets(s spec) []signerSet {
 		}
 		return append(sets, signerSet{"own-alphabet-node", []world.SignerSpec{g(w.Members[0])}, true})
 	case kRoleMajority:
+		// the role is re-designated in the block before each of the last two requests: the dismissed
+		// majority has lost the right already, the one designated a block ago holds it already
+		ir2, ir3 := p.roleKeys("c03-ir2", 4), p.roleKeys("c03-ir3", 4)
+		p.pre = map[string]func() error{
+			lblDismissed:  func() error { return w.DesignateIR(world.Pubs(ir2)) },
+			lblDesignated: func() error { return w.DesignateIR(world.Pubs(ir3)) },
+		}
 		return []signerSet{nobody, stranger, member, maj, alpha, {"one-inner-ring-key", []world.SignerSpec{single(p.ir[0])}, false},
-			{"inner-ring-majority", []world.SignerSpec{g(p.irMajority)}, true}}
+			{"inner-ring-majority", []world.SignerSpec{g(p.irMajority)}, true},
+			{lblDismissed, []world.SignerSpec{g(p.irMajority)}, false},
+			{lblDesignated, []world.SignerSpec{g(world.Multi(ir3, 3))}, true}}
 	case kKeyOrStored:
 		key := s.key(p)
 		// stored Alphabet list of the NeoFS contract = the committee keys here, so its 2/3+1 account is the chain Alphabet account
@@ -267,12 +296,31 @@ func runMethod(b *runner.Batch, n int, art, method string, arity int, s spec) {
 		return
 	}
 	sets := p.signerSets(s)
+	if s.extra != nil {
+		sets = append(sets, s.extra(p)...)
+	}
 	// insufficient sets first (they must leave the prepared state untouched), sufficient ones last
-	sort.SliceStable(sets, func(i, j int) bool { return !sets[i].sufficient && sets[j].sufficient })
+	rank := func(x signerSet) int {
+		switch {
+		case p.pre[x.label] != nil:
+			return 2
+		case x.sufficient:
+			return 1
+		}
+		return 0
+	}
+	sort.SliceStable(sets, func(i, j int) bool { return rank(sets[i]) < rank(sets[j]) })
 	doneSufficient := false
 	for _, ss := range sets {
-		if ss.sufficient && doneSufficient {
+		if ss.sufficient && doneSufficient && s.gateFault == "" {
 			continue // the prepared state is consumed by the first sufficient call
+		}
+		if pre := p.pre[ss.label]; pre != nil {
+			if err := pre(); err != nil {
+				b.Inconclusive("step before signer set '" + ss.label + "': " + err.Error())
+				return
+			}
+			b.Tx(1)
 		}
 		args := s.args(p)
 		r := p.w.Invoke(ss.signers, h, method, args...)
@@ -295,6 +343,10 @@ func runMethod(b *runner.Batch, n int, art, method string, arity int, s spec) {
 			}
 			if s.falseOnRefusal && r.Halted() && !isFalse(r) {
 				b.Violation(fmt.Sprintf("%s under signer set '%s' did not report false", key, ss.label), det())
+			}
+			if s.gateFault != "" && strings.Contains(r.Fault, s.gateFault) {
+				// the witness check precedes the version check in every update: reaching the latter means the gate was passed
+				b.Violation(fmt.Sprintf("%s under signer set '%s' (requires %s) passed the witness gate and was stopped only by the version check", key, ss.label, s.kind), det())
 			}
 			b.Hit("insufficient:" + ss.label)
 		} else {
@@ -321,6 +373,24 @@ func runMethod(b *runner.Batch, n int, art, method string, arity int, s spec) {
 		b.Hit("method:" + key)
 	}
 	b.State(fmt.Sprintf("%s|n%d", key, n))
+	if s.alt == nil {
+		return
+	}
+	for _, ss := range s.alt(p) {
+		p2 := newPrep(b, n)
+		if p2 == nil {
+			return
+		}
+		r := p2.w.Invoke(ss.signers, p2.instance(art), method, s.args(p2)...)
+		b.Tx(1)
+		if !r.Halted() || (!s.noEffect && r.Diff.Empty() && len(r.Events) == 0) {
+			b.Violation(fmt.Sprintf("%s with the documented alternative witness (%s) failed or had no effect: %s %s", key, ss.label, r.State, r.Fault),
+				map[string]any{"method": key, "signers": ss.label, "committee": n, "tx": p2.w.RenderResult(r, true)})
+		}
+		b.Hit("sufficient-alternative:" + ss.label)
+		b.Eval(fmt.Sprintf("%s|%s|%s|n%d", key, ss.label, r.State, n), true)
+		p2.w.Close()
+	}
 }
 
 // runGasCaller: onNEP17Payment is inert when called directly by anybody; it takes effect through a native GAS transfer.
@@ -547,14 +617,14 @@ func runC03(b *runner.Batch) {
 func init() {
 	runner.Register(&runner.Check{
 		ID: "C03", Level: "exploration",
-		Rule: "The method list is read from the manifests compiled from the working tree (non-safe callable methods of 11 contracts). Each method gets a freshly prepared world (all contracts deployed, live container with roster, candidates, names, deposits) and is executed under every signer set of its requirement kind {nobody, stranger, single committee member, Majority where the Alphabet is required and vice versa, the named key without the Alphabet, the Alphabet without the named key, another key, ...}, insufficient sets first, the sufficient one last, on committees of 3 and 1 (quick) / 3, 1 and 7 (thorough). Classification per transaction: effect (HALT with storage diff or notification) / inert (FAULT, rejected, or HALT without diff, notification or native token transfer). Safe methods are called inside a fully witnessed transaction; verify methods are invoked directly and used as contract witnesses of real transactions. distinct = (method, signer set, outcome, committee size).",
+		Rule: "The method list is read from the manifests compiled from the working tree (non-safe callable methods of 11 contracts). Each method gets a freshly prepared world (all contracts deployed, live container with roster, candidates, names, deposits) and is executed under every signer set of its requirement kind {nobody, stranger, single committee member, Majority where the Alphabet is required and vice versa, the named key without the Alphabet, the Alphabet without the named key, another key, the appointed admin of the name without its owner, the Inner Ring majority dismissed by a re-designation in the previous block, ...}, insufficient sets first, the sufficient one last, on committees of 3 and 1 (quick) / 3, 1 and 7 (thorough). Documented alternative witnesses (the appointed admin for NNS record methods, the Inner Ring majority designated in the previous block) are run as further sufficient sets; an insufficient set that reaches an update's version check counts as having passed the witness gate. Classification per transaction: effect (HALT with storage diff or notification) / inert (FAULT, rejected, or HALT without diff, notification or native token transfer). Safe methods are called inside a fully witnessed transaction; verify methods are invoked directly and used as contract witnesses of real transactions. distinct = (method, signer set, outcome, committee size).",
 		Assumptions: []string{"neo-go v0.107.0 VM, ledger and native contracts are the trusted base", "contracts are compiled at check time from /repo/contracts",
 			"update with sufficient witnesses is judged by reaching the version check (same-version fault); the successful upgrade itself is exercised by C16", "a method without a row in the table makes the run inconclusive"},
 		Batches: func(tier string) int { return 90 * len(sizes(tier)) }, // room for methods added to a manifest
 		Helpers: []string{"probe"},
 		Chunk:   4,
 		Floors: []string{"sufficient:" + kAlphabet, "sufficient:" + kMajority, "sufficient:" + kKey, "sufficient:" + kKeyAlphabet, "sufficient:" + kOwnerAdmin, "sufficient:" + kNode, "sufficient:" + kRoleMajority, "sufficient:" + kGasCaller, "sufficient:" + kNone, "sufficient:" + kKeyOrStored,
-			"insufficient:nobody", "insufficient:single-member", "insufficient:majority", "insufficient:alphabet", "insufficient:named-key-without-alphabet", "insufficient:alphabet-without-named-key", "safe-method-halted", "verify-accepts:proxy", "verify-refuses:proxy", "verify-accepts:processing", "verify-refuses:processing", "verify-accepts:alphabet"},
+			"insufficient:nobody", "insufficient:" + lblDismissed, "sufficient-alternative:appointed-admin", "insufficient:current-admin+new-admin", "insufficient:appointed-admin", "insufficient:single-member", "insufficient:majority", "insufficient:alphabet", "insufficient:named-key-without-alphabet", "insufficient:alphabet-without-named-key", "safe-method-halted", "verify-accepts:proxy", "verify-refuses:proxy", "verify-accepts:processing", "verify-refuses:processing", "verify-accepts:alphabet"},
 		Run: runC03,
 		Finish: func(m *runner.Merged, cov map[string]any) {
 			n := 0
